@@ -152,6 +152,22 @@ func (r *Rig) Do(method, path string, body any) (int, []byte) {
 	return rec.Code, rec.Body.Bytes()
 }
 
+// DoRaw performs one management API request with the given raw body bytes (nil: no body) and
+// an already escaped request path.
+func (r *Rig) DoRaw(method, path string, body []byte) (int, []byte) {
+	var rd io.Reader
+	if body != nil {
+		rd = bytes.NewReader(body)
+	}
+	req := httptest.NewRequest(method, path, rd)
+	rec := httptest.NewRecorder()
+	r.Mux.ServeHTTP(rec, req)
+	return rec.Code, rec.Body.Bytes()
+}
+
+// UsersPath is the path of the users collection of the rig's server.
+const UsersPath = usersPath
+
 const usersPath = "/servers/" + ServerName + "/users"
 
 type userJSON struct {
